@@ -441,7 +441,7 @@ def assemble(unit_name, repo=None):
                         p2, kv2 = _kv(r2.split())
                         cur = {'kind': 'fmt', 'nth': int(p2[0]) if p2 else 1, 'lines': []}
                     elif c2 == 'subst':
-                        mm = re.match(r'(D\d\w*)\s+/((?:[^/\\]|\\.)*)/\s*=>\s*(.*?)(?:\s+count=(\d+))?$', r2)
+                        mm = re.match(r'([A-Z]\d\w*)\s+/((?:[^/\\]|\\.)*)/\s*=>\s*(.*?)(?:\s+count=(\d+))?$', r2)
                         if not mm:
                             raise ExtractError('malformed subst: ' + r2)
                         cur = {'kind': 'subst', 'rule': mm.group(1), 'regex': mm.group(2).replace('\\/', '/'),
